@@ -47,13 +47,18 @@ def make_stock(rng, kind=None, dtype=None, cost=None, dt=None):
     if kind == "brownian":
         s = BrownianStock(sigma=float(rng.uniform(0.05, 0.6)), mu=float(pick(rng, [0.0, 0.0, 0.1, -0.2])), **kw)
     elif kind == "heston":
-        s = HestonStock(
-            kappa=float(rng.uniform(0.5, 3)),
-            theta=float(rng.uniform(0.01, 0.09)),
-            sigma=float(rng.uniform(0.05, 0.6)),
-            rho=float(rng.uniform(-0.9, 0.5)),
-            **kw,
-        )
+        if rng.random() < 0.3:
+            # far from the Feller condition: the variance reaches exactly zero on some paths and steps
+            s = HestonStock(kappa=float(rng.uniform(0.2, 1)), theta=float(rng.uniform(0.002, 0.02)), sigma=float(rng.uniform(0.5, 1.5)),
+                            rho=float(rng.uniform(-0.9, 0.0)), **kw)
+        else:
+            s = HestonStock(
+                kappa=float(rng.uniform(0.5, 3)),
+                theta=float(rng.uniform(0.01, 0.09)),
+                sigma=float(rng.uniform(0.05, 0.6)),
+                rho=float(rng.uniform(-0.9, 0.5)),
+                **kw,
+            )
     elif kind == "merton":
         s = MertonJumpStock(
             mu=float(pick(rng, [0.0, 0.05])),
